@@ -87,7 +87,7 @@ class ScanIdentifiers(UDSScanner):
 
                 logger.result(f"Starting scan in session: {g_repr(session)}")
 
-                clean_returns = clean_returns and await self.perform_scan(session)
+                clean_returns = await self.perform_scan(session) and clean_returns
 
                 logger.result(f"Scan in session {g_repr(session)} is complete!")
                 logger.info(f"Leaving session {g_repr(session)} via hook")
